@@ -160,6 +160,7 @@ type xmpStyle struct {
 	quote    byte
 	form     []bool // per property: true = attribute form (simple properties only)
 	pad      func() string
+	inTag    func() string // white space before the '>' or "/>" of a tag (nil: none)
 	emptyArr func() string // "" or an empty array of a foreign property (self-closing or open/close form) to put between elements
 	junk     string
 	nlIndent bool
@@ -184,16 +185,22 @@ func serialiseXMP(c *Ctx, props []xprop, st xmpStyle) []byte {
 			b.WriteString(st.pad() + " " + p.prefix + ":" + p.name + "=" + q + p.val + q)
 		}
 	}
-	b.WriteString(">" + st.pad())
+	inT := func() string {
+		if st.inTag == nil {
+			return ""
+		}
+		return st.inTag()
+	}
+	b.WriteString(inT() + ">" + st.pad())
 	for i, p := range props {
 		if st.emptyArr != nil {
 			b.WriteString(st.emptyArr())
 		}
 		if p.array == "" && !st.form[i] {
-			b.WriteString("<" + p.prefix + ":" + p.name + ">" + p.val + "</" + p.prefix + ":" + p.name + ">" + st.pad())
+			b.WriteString("<" + p.prefix + ":" + p.name + inT() + ">" + p.val + "</" + p.prefix + ":" + p.name + inT() + ">" + st.pad())
 		}
 		if p.array != "" {
-			b.WriteString("<" + p.prefix + ":" + p.name + ">" + st.pad() + "<rdf:" + p.array + ">" + st.pad())
+			b.WriteString("<" + p.prefix + ":" + p.name + inT() + ">" + st.pad() + "<rdf:" + p.array + inT() + ">" + st.pad())
 			for _, it := range p.items {
 				if p.array == "Alt" {
 					b.WriteString("<rdf:li xml:lang=" + q + "x-default" + q + ">" + it + "</rdf:li>" + st.pad())
@@ -282,6 +289,10 @@ func runC13(c *Ctx) error {
 	for i := 0; i < n; i++ {
 		props := genXProps(c)
 		padSets := [][]string{{""}, {" ", "\n", "\n  ", "   "}, {" ", "\n", "\t", "\r\n", "\r\n\t"}, {" ", "\n", "\n \n", strings.Repeat(" ", 130), strings.Repeat("\n ", 200)}}
+		wsInTags := c.Rng.Intn(3) == 0
+		if wsInTags {
+			c.Stat("style.white-space-before-tag-end")
+		}
 		emptyArrays := c.Rng.Intn(3) == 0
 		if emptyArrays {
 			c.Stat("style.empty-arrays-and-solo-elements")
@@ -318,6 +329,9 @@ func runC13(c *Ctx) error {
 		}
 		mk := func(attr func(i int) bool) ([]byte, []bool) {
 			st := xmpStyle{quote: []byte{'"', '\''}[c.Rng.Intn(2)], pad: padFn}
+			if wsInTags {
+				st.inTag = func() string { return []string{"", " ", "\n", "  \t", padFn()}[c.Rng.Intn(5)] }
+			}
 			if emptyArrays {
 				st.emptyArr = func() string {
 					kind := []string{"Bag", "Seq", "Alt"}[c.Rng.Intn(3)]
